@@ -1,2 +1,77 @@
-From PauLie Require Import Parser.
-Example C17_placeholder : True. Proof. exact I. Qed.
+(* C17 — text forms, sparse notation and k-local expansion denote the right strings.
+   Model/Parser.v is pauli_string_parser step for step over ASCII characters (fixed = true: the repaired
+   digit recognition; fixed = false: Python int() of the pinned snapshot). *)
+From PauLie Require Import Pauli Parser ParserT.
+Open Scope char_scope.
+
+(* printing and re-reading is the identity, for every string *)
+Theorem C17_roundtrip : forall p, parse_text true (to_text p) = POk p.
+Proof. exact (roundtrip true). Qed.
+Print Assumptions C17_roundtrip.
+
+(* the sparse notation: any sequence of dense letters and positioned letters (position = any non-empty ASCII digit
+   string) expands to exactly those letters at those positions and identity elsewhere; a position that does not
+   increase is rejected *)
+Theorem C17_sparse : forall items, Forall wf_item items ->
+  parse_text true (render items) = match expand [] items with Some p => POk p | None => PErr end.
+Proof. exact sparse_no_size. Qed.
+Print Assumptions C17_sparse.
+
+Theorem C17_sparse_with_size : forall items sz, Forall wf_item items -> sz <> [] -> forallb is_digit sz = true ->
+  parse_text true (render items ++ "s" :: sz) =
+  match expand [] items, digits_val 0 sz with
+  | Some p, Some n => if (Z.of_N n <? Z.of_nat (length p))%Z then PErr else POk (p ++ identity (Z.to_nat (Z.of_N n) - length p))
+  | _, _ => PErr
+  end.
+Proof. exact sparse_with_size. Qed.
+Print Assumptions C17_sparse_with_size.
+
+(* every accepted text consists of characters of the notation's alphabet only (letters are I, X, Y, Z by typing) *)
+Theorem C17_alphabet : forall t p, parse_text true t = POk p -> forallb in_alphabet t = true.
+Proof. exact accepted_alphabet. Qed.
+Print Assumptions C17_alphabet.
+(* ... which the pinned snapshot violated: a space, a sign and an underscore inside the size were accepted *)
+Theorem C17_alphabet_refuted_snapshot :
+  parse_text false ["X"; "s"; " "; "5"] = POk [PX; PI; PI; PI; PI] /\
+  parse_text false ["X"; "s"; "+"; "5"] = POk [PX; PI; PI; PI; PI] /\
+  parse_text false ["X"; "s"; "1"; "_"; "0"] = POk (PX :: repeat PI 9) /\
+  in_alphabet " " = false /\ in_alphabet "+" = false /\
+  parse_text true ["X"; "s"; " "; "5"] = PErr /\ parse_text true ["X"; "s"; "1"; "_"; "0"] = PErr.
+Proof. vm_compute. repeat split. Qed.
+Print Assumptions C17_alphabet_refuted_snapshot.
+
+Theorem C17_reject_missing_number : forall fixed f c g r acc, is_token g = true ->
+  parse_ops fixed (S f) (c :: "_" :: g :: r) acc = PErr.
+Proof. exact reject_missing_number. Qed.
+Print Assumptions C17_reject_missing_number.
+Theorem C17_reject_small_size : forall a b z p,
+  find_s (a ++ "s" :: b) = Some (a, b) -> b <> [] -> to_int true b = Some z ->
+  parse_ops true (length a) a [] = POk p -> (z < Z.of_nat (length p))%Z -> parse_text true (a ++ "s" :: b) = PErr.
+Proof. exact reject_small_size. Qed.
+Print Assumptions C17_reject_small_size.
+
+(* parsing terminates: the model is a total function, and its answer does not depend on the fuel once the fuel
+   covers the text (the loops consume at least one character per iteration) *)
+Theorem C17_fuel_enough : forall fixed fuel l acc, (length l <= fuel)%nat ->
+  parse_ops fixed fuel l acc = parse_ops fixed (length l) l acc.
+Proof. exact fuel_enough. Qed.
+Print Assumptions C17_fuel_enough.
+
+(* k-local expansion: exactly the distinct translates of each right-padded generator, each once, all of length n *)
+Theorem C17_klocal : forall n gens out, gens <> [] -> (maxlenL gens <= n)%nat -> k_local_generators n gens = Ok out ->
+  NoDup out /\
+  (forall t, In t out <-> exists g j, In g gens /\ (j <= n - maxlenL gens)%nat /\ t = translate n (padL (maxlenL gens) g) j) /\
+  (forall t, In t out -> length t = n).
+Proof. exact klocal_members. Qed.
+Print Assumptions C17_klocal.
+Theorem C17_klocal_order : forall n gens, gens <> [] -> (maxlenL gens <= n)%nat ->
+  k_local_generators n gens =
+  Ok (snd (fold_left add_new (flat_map (fun g => translates_of n (padL (maxlenL gens) g)) gens) ([], []))).
+Proof. exact klocal_is_dedup_translates. Qed.
+Print Assumptions C17_klocal_order.
+
+Example C17_example :
+  parse_text true ["Z"; "Y"; "X"; "_"; "4"; "s"; "1"; "0"] = POk [PZ; PY; PI; PX; PI; PI; PI; PI; PI; PI] /\
+  render [Dense PZ; Dense PY; At ["4"] PX] = ["Z"; "Y"; "X"; "_"; "4"] /\
+  k_local_generators 3 [[PX]; [PX; PY]] = Ok [[PX;PI;PI]; [PI;PX;PI]; [PX;PY;PI]; [PI;PX;PY]].
+Proof. vm_compute. repeat split. Qed.
